@@ -167,7 +167,9 @@ typedef struct {
     int nadded;
 } model_t;
 
-static const char *const LOOKUPS[] = { "go", "forward", "ten", "a(2)", "zed", "go(2)", "zed2", "nobase(2)", "bad", "empt", "<sil>", "xoh", "zws" };
+/* the last four are other spellings of known or addable words: found exactly when the dictionary is case-insensitive (dictcase=yes) */
+static const char *const LOOKUPS[] = { "go", "forward", "ten", "a(2)", "zed", "go(2)", "zed2", "nobase(2)", "bad", "empt", "<sil>", "xoh", "zws", "GO", "Forward", "ZED", "Go(2)" };
+static int DICTCASE;
 #define NLOOK (int)(sizeof LOOKUPS / sizeof *LOOKUPS)
 #define NMANY 4200
 static const char *const MANYPRON[8] = { "G OW", "T EH N", "M IY", "F AO R", "S T AA P", "W AH N", "T UW", "Z EH D" };
@@ -175,14 +177,14 @@ static const char *
 model_lookup(const model_t *m, const char *w)
 {
     int i;
-    if (w[0] == 'w' && strlen(w) == 5 && strspn(w + 1, "0123456789") == 4)
+    if ((w[0] == 'w' || (DICTCASE && w[0] == 'W')) && strlen(w) == 5 && strspn(w + 1, "0123456789") == 4)
         return m->many && atoi(w + 1) < NMANY ? MANYPRON[atoi(w + 1) % 8] : NULL;
     static const char *const base[][2] = { { "go", "G OW" }, { "forward", "F AO R W ER D" }, { "ten", "T EH N" }, { "a(2)", "EY" }, { "<sil>", "SIL" } };
     for (i = 0; i < 5; i++)
-        if (strcmp(base[i][0], w) == 0)
+        if ((DICTCASE ? strcasecmp : strcmp)(base[i][0], w) == 0)
             return base[i][1];
     for (i = 0; i < m->nadded; i++)
-        if (strcmp(m->added[i].word, w) == 0)
+        if ((DICTCASE ? strcasecmp : strcmp)(m->added[i].word, w) == 0)
             return m->added[i].phones;
     return NULL;
 }
@@ -207,7 +209,7 @@ check_dict(const model_t *m, const char *cd, const char *after)
     for (i = 0; i < NMANY; i += m->many ? 1 : 1050) {
         char w[8], *got;
         const char *exp;
-        snprintf(w, sizeof w, "w%04d", i);
+        snprintf(w, sizeof w, (i % 7 == 3) ? "W%04d" : "w%04d", i); /* every seventh in another case */
         got = decoder_lookup_word(D, w);
         exp = model_lookup(m, w);
         if ((got == NULL) != (exp == NULL) || (got && strcmp(got, exp) != 0)) {
@@ -1038,6 +1040,7 @@ main(int argc, char **argv)
     MAXHMMPF = atoi(mc_arg(argc, argv, "--maxhmmpf", "0"));
     NOGRAM = atoi(mc_arg(argc, argv, "--nogram", "0"));
     CFGOPTS = mc_arg(argc, argv, "--cfg", "");
+    DICTCASE = strstr(CFGOPTS, "dictcase=yes") != NULL;
     if (strcmp(set, "proto") == 0)
         SET_N = N_PROTO;
     else if (strcmp(set, "core") == 0)
